@@ -54,6 +54,15 @@ def gen_case(rng, tier, index):
         # the Rust worker pool: read-ahead measured in the Rust harness
         return {"kind": "harness", "seed": rng.getrandbits(48), "runs": 60,
                 "max_n": rng.choice([12, 24, 40]), "max_T": rng.choice([3, 7])}
+    if rng.random() < 0.04:
+        # tf.data path (TFRecord): its C++ file opens are invisible at the
+        # Python seam, so open shard files are counted in /proc/self/fd
+        hist = eread.read_hist(rng, fmt="tfrec", n_examples=450, eps=3,
+                               compression=rng.choice(["", "GZIP"]))
+        return {"kind": "tfdata", "hist": hist,
+                "fp": rng.choice([None, None, 1, 2, 3]),
+                "shuffle": rng.choice([2, 5]), "repeat": rng.random() < 0.5,
+                "k": rng.randrange(90, 130), "seed": rng.getrandbits(32)}
     if rng.random() < 0.55:
         T = rng.choice([1, 2, 3, 4, 6])
         b = rng.choice([1, 2, 3, 5, 8])
@@ -269,7 +278,65 @@ def run_iface(case):
     return out
 
 
+def run_tfdata(case):
+    import os
+    hist = case["hist"]
+    st = hist["structure"]
+    out = {"ok": True}
+    bootstrap.sedpack_io()
+    series = []
+    with eread.ReadEnv(hist, case["seed"]) as env:
+        split = hist["splits"][0]
+        root = os.path.realpath(env.root)
+        ds = env.open()
+        fp = case["fp"]
+        t_eff = fp or len(os.sched_getaffinity(0))
+        slack = 4 * t_eff + 8
+
+        def open_shards():
+            n = 0
+            for fd in os.listdir("/proc/self/fd"):
+                try:
+                    tgt = os.readlink(f"/proc/self/fd/{fd}")
+                except OSError:
+                    continue
+                if tgt.startswith(root) and tgt.endswith(".tfrec"):
+                    n += 1
+            return n
+
+        tfds = ds.as_tfdataset(split=split, batch_size=0, prefetch=2,
+                               file_parallelism=fp, parallelism=2,
+                               shuffle=case["shuffle"],
+                               repeat=case["repeat"])
+        it = iter(tfds.as_numpy_iterator())
+        ctx = (f"tfdata tfrec shards=150 file_parallelism={fp} "
+               f"shuffle={case['shuffle']} repeat={case['repeat']}")
+        for j in range(case["k"]):
+            next(it)
+            series.append(open_shards())
+            if series[-1] > slack:
+                out.update(
+                    ok=False, vclass="read_ahead_exceeds_bound",
+                    detail=f"{ctx}: {series[-1]} shard files open at once "
+                    f"after {j + 1} examples (allowed {slack}, independent "
+                    f"of the number of shards)")
+                break
+        del it
+    out.update({"digest": hashlib.sha1(repr((case["fp"], case["shuffle"],
+                                             out["ok"])).encode()).hexdigest(),
+                "nontrivial": True,
+                "stats": {"tfdata_runs": 1},
+                "probes": {"iface_tfdata": 1,
+                           "tfdata_parallelism_none": int(case["fp"] is None)},
+                "key": {"engine": "E-read", "iface": "tfdata"},
+                "sample": {"iface": "tfdata", "file_parallelism": case["fp"],
+                           "open_shard_files_at_each_yield": series[::10]}})
+    return out
+
+
 def run_case(case):
+    if case["kind"] == "tfdata":
+        return run_tfdata(case)
     if case["kind"].startswith("harness"):
         from simlib.props import c15
         res = c15.run_harness(case)
@@ -297,7 +364,7 @@ def reach(agg):
     for name in ("prim_shuffle", "prim_rr", "prim_pool", "prim_pool_rr",
                  "infinite_stream", "consumer_starved", "iface_sync",
                  "iface_conc", "iface_async", "many_shards", "repeat_stream",
-                 "rust_harness", "slow_async_consumer"):
+                 "rust_harness", "slow_async_consumer", "iface_tfdata"):
         if not p.get(name):
             need.append(f"probe {name} never hit")
     return need
